@@ -27,6 +27,16 @@ RULE = ('T2: generated API-level messages (method tokens, Unicode path segments 
 	'twice in a row, between messages of the other framing, pipelined in one call and octet by octet: each message delivered exactly as when parsed alone on a fresh machine. '
 	'A share of these runs (octet by octet: wires up to 200 octets, one in 4; chunked / case / Content-Length on one machine: wires up to 1200 octets, one in 3) is also replayed '
 	'by the parser model inside Coq on the real octets (CParse of Corr/Parser.v). '
+	'Input classes on top of the random messages (class_cases; same oracle, same Coq correspondence up to 20 kB of wire): (1) objects with a history - every parameter overwritten, '
+	'the message object used for another message before, the content object or the Body shared with a message composed before, content filled in after the assignment, every alternative '
+	'public setter, prepare / compose / framing changes repeated on one composer (the LAST composition is parsed; expected: what a fresh object with the final data gives); '
+	'(2) text that Unicode normalisation, case mapping or IDNA / stringprep would change, and astral characters, in path segments, query names and values, text header values, text bodies '
+	'and text pieces of iterables, also in other body charsets; (3) lengths 11/12, 75/76, 255/256, 1023/1024, 4095/4096, 8190..8192 (bodies, one chunk, segment, field value: also 65535/65536) '
+	'in every position that has a length, and as many fields / segments / pairs / pieces; (4) every status, reason phrase, method, header field name, content coding, media type, charset and URI '
+	'scheme of the tables of the tree under test (read at run time) in several letter cases; (5) degenerate values (empty, blanks, separators, doubled separators, unbalanced quotes) in every position; '
+	'(6) every cleanly delivered wire is also fed re-encoded by an independent RFC 7230 writer: chunked again at other boundaries with other chunk-size spellings and chunk extensions, the other framing, '
+	'field names in other letter cases, field lines in another order, other optional white space, folded values - same delivery (fields compared as a set). '
+	'Left out of the new classes, each named in notes/reports/C04.md: see excluded(). '
 	'non-trivial = distinct (kind, outcome, source type, framing, coding, size class, version) classes')
 EXHAUSTIVE = {'quick': False, 'thorough': False}
 TRUSTED = [
@@ -34,6 +44,7 @@ TRUSTED = [
 	'harness/composer_rec.py and harness/parser_rec.py (T2/T3: public API only; frozen clock; recording wrappers for the coders, Element.split, start-line parser, header hooks, Body.decompress, RFC 2047 decoding, Trailer parsing)',
 	'the fragmented and sequential feeds of the oracle run in forked worker processes (harness/props/C04.py: Pending / _feeds; results looked at when coq_case is called); the case files define the two-constructor '
 	'wrapper xcase / xcheck that dispatches to Corr.C04.check and Corr.Parser.check',
+	'the re-encoded feeds are written by harness/props/C04.py: reencodings from what the independent reader read_http1 of harness/composer_rec.py makes of the composed octets (oracle only)',
 	'callees of both models are parameters of the theorems: content coders and decoders (zlib/gzip), URI composition and parsing of the request target (C10), header-semantics hooks of on_headers_complete, RFC 2047 decoding',
 ]
 ASSUMPTIONS = [
@@ -186,10 +197,409 @@ def gen_cases(rng, tier):
 			cases.append(c)
 	for _ in range(20000 if big else 1100):
 		cases.append(rmessage(rng, tier))
+	cases.extend(c for c in class_cases(rng, tier) if not excluded(c))
 	return cases
 
 
+# ---------------------------------------------------------------- input classes (each: a generator of cases; oracle as for every other case)
+# (1) statefulness   (2) Unicode normalisation forms and look-alikes   (3) lengths at and around limits   (4) every name of every table the
+# code consults, read from the tree at run time, in several letter cases   (5) degenerate values   (6: re-encodings, see observe_extra)
+# text that Unicode normalisation (NFC / NFD / NFKC / NFKD), case folding or an IDNA / stringprep mapping would change, and astral characters
+UNI = [
+	'cafe\u0301', '\xe9', 'e\u0301', '\u212b', '\xc5', 'A\u030a', '\u2126', '\u03a9', '\u212a', '\u1112\u1161\u11ab', '\ud55c', '\uf900', '\u8c48',
+	'\ufa0e', '\U0002f800', 'q\u0307\u0323', 'q\u0323\u0307', '\u2000', '\ufb01', '\xb5', '\u03bc', '\u0130', '\u0131', '\xdf', '\u1e9e', '\u01c6',
+	'\u2460', 'x\xb2', '\u1e9b\u0323', '\u0344', '\u0958', '\U0001d400', '\U0001f1e9\U0001f1ea', '\U0001f468\u200d\U0001f469', '\u202eabc', '\ufeffx',
+	'\uff21', '\u3000', 'a\xad', 'a\u200b',
+]
+LENS = [11, 12, 75, 76, 255, 256, 1023, 1024, 4095, 4096, 8190, 8191, 8192]
+LENS_BIG = [65535, 65536]
+DEG = ['', ' ', '\t', ',', ',,', ';', ';;', '=', '&', '&&', '"', '""', '"a', 'a"', '\\', '\\"', ':', '()', '(', 'a,,b', ', a', 'a ,', 'a=', '=a', "'", '<>', '@', '[]', '{}', '?', '/', '//',
+	'%', '%%', '%zz', '%2', '%41', '+', 'a  b', 'a\tb', '#', '*', '|', '^', '`', '~', '!', '$', '.x', '...']
+ROUTES = [('overwrite', {}), ('reuse', {}), ('reuse', {'chunked': True}), ('shared', {}), ('shared', {'chunked': True}), ('sharedbody', {}), ('sharedbody', {'chunked': True}), ('alt', {})]
+SMALL = {
+	'bytes': ['abä'.encode('utf-8').hex()], 'bytearray': [b'\xff\x00ab'.hex()], 'text': ['täxt é €'.encode('utf-8').hex()],
+	'list': [b'ab'.hex(), 'éä'.encode('utf-8').hex(), b''.hex(), b'cd'.hex()], 'tuple': ['€'.encode('utf-8').hex(), b'\xe2\x82\xac!'.hex()],
+	'gen': ['ä'.encode('utf-8').hex(), b'\xf6'.hex(), '\U0001f600'.encode('utf-8').hex()], 'bytesio': [b'bytes\r\nio'.hex()], 'file': [b'file \x00 content'.hex()],
+}
+SMALL_STRS = {'list': [False, True, False, True], 'tuple': [True, False], 'gen': [True, False, True]}
+
+
+def _small(t, pos=0):
+	b = {'t': t, 'items': list(SMALL[t])}
+	if t in SMALL_STRS:
+		b['strs'] = list(SMALL_STRS[t])
+	if t in ('bytesio', 'file'):
+		b['pos'] = pos
+	return b
+
+
+def _bytes(data):
+	return {'t': 'bytes', 'items': [data.hex()]}
+
+
+def _req(**kw):
+	c = {'k': 'req', 'version': [1, 1], 'method': 'POST', 'segs': ['', 'p'], 'query': None, 'host': 'example.com', 'hdrs': [], 'body': _bytes(b'content'), 'coding': None, 'chunked': False}
+	c.update(kw)
+	return c
+
+
+def _resp(**kw):
+	c = {'k': 'resp', 'version': [1, 1], 'status': 200, 'reason': None, 'rmethod': 'GET', 'hdrs': [], 'body': _bytes(b'content'), 'coding': None, 'chunked': False}
+	c.update(kw)
+	return c
+
+
+def _msg(kind, **kw):
+	return _req(**kw) if kind == 'req' else _resp(**kw)
+
+
+def _cases3(name):
+	out = []
+	for v in (name, name.lower(), name.upper(), name.title(), name[:1].lower() + name[1:].upper()):
+		if v not in out:
+			out.append(v)
+	return out
+
+
+_REG = {}
+
+
+def registries():
+	"""the tables the code consults, read from the tree under test at run time"""
+	if _REG:
+		return _REG
+	import os
+	import re
+	import httoop
+	from httoop.codecs import CODECS
+	from httoop.header.element import HEADER
+	from httoop.header.messaging import ContentEncoding
+	from httoop.messages.method import Method
+	from httoop.status import REASONS, STATUSES
+	from httoop.util import KNOWN_ENCODINGS
+	root = os.path.dirname(httoop.__file__)
+	methods = list(Method.safe_methods) + list(Method.idempotent_methods)
+	for rel in ('server/__init__.py', 'client/__init__.py', 'semantic/request.py', 'semantic/response.py', 'messages/request.py', 'parser.py'):
+		try:
+			with open(os.path.join(root, rel)) as fd:
+				for line in fd:
+					if 'method' in line:
+						methods.extend(re.findall(r"""u?['"]([A-Z][A-Z-]{2,19})['"]""", line))
+		except IOError:
+			pass
+	_REG.update(
+		statuses=sorted(set(int(k) for k in list(REASONS) + list(STATUSES) if 100 <= int(k) < 600)),
+		reasons=dict((int(k), v[0]) for k, v in REASONS.items()),
+		removed=dict((int(k), sorted(h.lower() for h in v.header_to_remove)) for k, v in STATUSES.items() if getattr(v, 'header_to_remove', None)),
+		methods=sorted(set(str(m) for m in methods)),
+		headers=sorted((str(k), bool(getattr(v, 'is_request_header', False)), bool(getattr(v, 'is_response_header', False)), bool(getattr(v, 'list_element', False)), str(getattr(v, '__name__', k)))
+			for k, v in dict.items(HEADER)),
+		codings=sorted((str(k), isinstance(v, str)) for k, v in ContentEncoding.CODECS.items()),
+		mimetypes=sorted(str(k) for k in CODECS),
+		charsets=sorted(KNOWN_ENCODINGS),
+	)
+	return _REG
+
+
+# sample values that the header-semantics hooks of the receiving machine (and the composer's prepare) understand; every other registered name gets 'v1'
+HEADER_SAMPLE = {'upgrade': 'websocket', 'http2-settings': 'AAMAAABkAAQAAP__', 'trailer': 'X-Checksum', 'expect': '100-continue', 'te': 'trailers', 'range': 'bytes=0-1',
+	'content-encoding': None, 'content-length': None, 'transfer-encoding': None, 'connection': None, 'host': None, 'date': None, 'content-range': None,
+	'set-cookie': 'a=b', 'www-authenticate': 'Basic realm="x"', 'proxy-authenticate': 'Basic realm="x"'}
+
+
+def class_stateful(rng, tier):
+	out = []
+	types = ('bytes', 'bytearray', 'text', 'list', 'tuple', 'gen', 'bytesio', 'file')
+	P = ['p', 1790000000]
+	full = tier == 'thorough'
+
+	def sequences(ch):
+		return [('twice', [['ch', ch], P, ['c'], P, ['c']]), ('compose-twice', [['ch', ch], P, ['c'], ['c']]), ('prepare-twice', [['ch', ch], P, P, ['c']]),
+			('framing-changed', [['ch', not ch], P, ['ch', ch], P, ['c']]), ('framing-changed-after-compose', [['ch', not ch], P, ['c'], ['ch', ch], P, ['c']]),
+			('framing-set-twice', [['ch', ch], ['ch', not ch], ['ch', ch], P, ['c']])]
+	for kind in ('req', 'resp'):
+		for ti, t in enumerate(types):
+			def base(ch):
+				d = dict(hdrs=[['X-A', b'v'.hex()], ['ETag', b'"e"'.hex()]], thdrs=[['X-T', 'caf\xe9 €']], body=_small(t, 3), chunked=ch)
+				if kind == 'req':
+					d.update(method='PATCH', segs=['', 'p q', '\xe4'], query=[['q', '1 2']], port=8080)
+				else:
+					d.update(status=203, reason='Custom  Reason')
+				return d
+			# the object has a history (quick: the framing alternates over the combinations; thorough: both framings for every combination)
+			for ri, (how, first) in enumerate(ROUTES):
+				if how in ('shared', 'sharedbody') and t == 'gen':
+					continue   # a generator can be consumed once: not shareable by its nature
+				for ch in ((False, True) if full else (bool((ri + ti) % 2),)):
+					out.append(_msg(kind, route={'how': how, 'first': dict(first), 'alt': len(out)}, **base(ch)))
+			# the composer is used more than once: the last composition is what is sent
+			for si in range(6):
+				for ch in ((False, True) if full else (bool((si + ti) % 2),)):
+					name, ops = sequences(ch)[si]
+					out.append(_msg(kind, ops=ops, how=name, **base(ch)))
+		# ... with a content coding (at the first use and / or at the final use)
+		for ci, coding in enumerate(('gzip', 'deflate')):
+			for ri, (how, first) in enumerate(ROUTES):
+				b = {'t': 'list', 'items': [b'abc'.hex(), b'def'.hex()]} if (ri + ci) % 2 else {'t': 'bytesio', 'items': [b'abcdef'.hex()]}
+				out.append(_msg(kind, route={'how': how, 'first': dict(first), 'alt': len(out)}, coding=coding, chunked=True, body=b))
+				out.append(_msg(kind, route={'how': how, 'first': dict(first, coding=coding), 'alt': len(out)}, body=b))
+			for ops in ([['ch', True], P, ['c'], P, ['c']], [['ch', True], P, ['c'], ['c']]):
+				out.append(_msg(kind, ops=ops, coding=coding, chunked=True, body=_bytes(b'abcdef')))
+	# the content object is filled after it was handed over
+	for kind in ('req', 'resp'):
+		for t in ('list', 'bytesio'):
+			for ch in (False, True):
+				for alt in (0, 1):
+					out.append(_msg(kind, route={'how': 'grown', 'alt': alt}, chunked=ch, body=dict(_small('list'), t=t, pos=2)))
+	# every combination of the alternative setters on a plain message
+	for alt in range(12):
+		out.append(_req(route={'how': 'alt', 'alt': alt}, method='put', segs=['', 'a b', 'c/d', ''], query=[['k', 'v w'], ['x', '']], hdrs=[['X-A', b'1'.hex()], ['Accept-Language', b'de'.hex()]],
+			body=_small('list'), version=[1, alt % 2]))
+		out.append(_resp(route={'how': 'alt', 'alt': alt}, status=[299, 404, 200, 503][alt % 4], reason=['Custom', 'not found', 'OK\t.', 'a  b'][alt % 4], hdrs=[['X-A', b'1'.hex()], ['Vary', b'*'.hex()]],
+			body=_small('tuple'), version=[1, alt % 2], chunked=bool(alt % 3 == 0 and alt % 2)))
+	return out
+
+
+def class_unicode(rng, tier):
+	out = []
+	for i, u in enumerate(UNI):
+		out.append(_req(segs=['', u, 'x' + u + 'y'], method='PUT', version=[1, i % 2]))
+		out.append(_req(query=[[u, 'v'], ['n', u], [u + '2', u + u]], segs=['', 'q']))
+		out.append(_msg('req' if i % 2 else 'resp', thdrs=[['X-Text', u], ['X-Text2', 'a ' + u + ' b']]))
+		# as a text body, and as text pieces of an iterable (Content-Length counts octets of the body charset)
+		if i % 2:
+			out.append(_resp(body={'t': 'text', 'items': [(u + ' text ' + u).encode('utf-8').hex()]}, chunked=bool(i % 4 == 1)))
+		else:
+			out.append(_msg('resp' if i % 4 else 'req', body={'t': ['list', 'tuple', 'gen'][(i // 2) % 3], 'items': [b'<'.hex(), u.encode('utf-8').hex(), b'|'.hex(), (u + u).encode('utf-8').hex()], 'strs': [False, True, False, True]}))
+		try:
+			raw = u.encode('latin-1')
+		except UnicodeEncodeError:
+			continue
+		out.append(_msg('req' if i % 2 else 'resp', hdrs=[['X-Raw', raw.hex()], ['X-Raw-Utf8', u.encode('utf-8').hex()]]))
+	return out
+
+
+def _fill(n, i):
+	"""n characters, not all the same, no separators"""
+	return ''.join('abcdefghij'[(i + j) % 10] for j in range(n))
+
+
+def class_lengths(rng, tier):
+	out = []
+	for i, n in enumerate(LENS + LENS_BIG):
+		big = n in LENS_BIG
+		data = bytes((j * 7 + i) % 256 for j in range(n))
+		out.append(_resp(body=_bytes(data)))
+		out.append(_req(body=_bytes(data), chunked=True))
+		if big and tier != 'thorough':
+			# the other positions at 64 kB: path segment and header value only (cost of the cuts)
+			out.append(_req(segs=['', _fill(n, i)]))
+			out.append(_resp(hdrs=[['X-Long', _fill(n, i).encode().hex()]]))
+			continue
+		# one piece of exactly n octets (one chunk: the digits of the chunk size change at 16, 256, 4096, 65536) between two others
+		out.append(_resp(body={'t': 'list', 'items': [b'ab'.hex(), data.hex(), b'c'.hex()], 'strs': [False] * 3}, chunked=True))
+		# n CHARACTERS of text that are more than n octets, alone and as a piece of a list
+		text = ('ä' + _fill(n - 2, i) + '€')
+		out.append(_req(body={'t': 'text', 'items': [text.encode('utf-8').hex()]}))
+		out.append(_resp(body={'t': 'tuple', 'items': [text.encode('utf-8').hex(), b'!'.hex()], 'strs': [True, False]}))
+		out.append(_req(segs=['', _fill(n, i), 'z']))
+		out.append(_req(segs=['', 's'], query=[['k', _fill(n, i)]]))
+		out.append(_req(segs=['', 's'], query=[[_fill(n, i), 'v']], method='GET'))
+		out.append(_msg('resp' if i % 2 else 'req', hdrs=[['X-Long', _fill(n, i).encode().hex()]]))
+		out.append(_msg('req' if i % 2 else 'resp', thdrs=[['X-Long-Text', _fill(n - 1, i) + '€']]))
+		out.append(_resp(status=200, reason='R' + _fill(n - 2, i).replace('e', ' ') + 'r'))
+		if n <= 1024:
+			out.append(_msg('req' if i % 2 else 'resp', hdrs=[['X-' + _fill(n - 2, i).title(), b'v'.hex()]]))
+		if n <= 256 or tier == 'thorough' and n <= 1024:
+			# n of them: fields, path segments, query pairs, pieces of an iterable
+			out.append(_msg('resp' if i % 2 else 'req', hdrs=[['X-N%d' % j, (b'%d' % j).hex()] for j in range(n)]))
+			out.append(_req(segs=[''] + [_fill(1 + j % 3, j) for j in range(n)]))
+			out.append(_req(segs=['', 's'], query=[[_fill(1 + j % 3, j), str(j)] for j in range(n)]))
+			out.append(_resp(body={'t': 'list', 'items': [bytes([97 + j % 26]).hex() for j in range(n)], 'strs': [bool(j % 2) for j in range(n)]}, chunked=bool(i % 2)))
+	for n in (1, 2, 19, 20):
+		out.append(_req(method=_fill(n, 0).upper()))
+		out.append(_req(method=('M-' + _fill(n, 3))[:n], chunked=True))
+	return out
+
+
+def class_registries(rng, tier):
+	reg = registries()
+	full = tier == 'thorough'
+	out = []
+	for i, code in enumerate(reg['statuses']):
+		if code not in STATUS_POOL or full:
+			out.append(_resp(status=code, body=_bytes(b'hello')))
+		std = reg['reasons'].get(code)
+		if std:
+			# the registered phrase in another letter case, and the phrase registered for ANOTHER status
+			other = reg['reasons'].get(reg['statuses'][(i + 7) % len(reg['statuses'])]) or 'Other'
+			for j, r in enumerate((std.upper(), std.lower(), other)):
+				if full or j == i % 3:
+					out.append(_resp(status=code, reason=r, body=_bytes(b'hello'), version=[1, (i // 3) % 2]))
+	for i, m in enumerate(reg['methods']):
+		for j, v in enumerate(_cases3(m)):
+			out.append(_req(method=v, chunked=bool((i + j) % 2), body=_bytes(b'data'), segs=['', 'r'], query=[['a', 'b']]))
+	for i, (name, is_req, is_resp, is_list, canonical) in enumerate(reg['headers']):
+		value = HEADER_SAMPLE.get(name.lower(), 'v1')
+		if value is None:
+			continue   # written by the composer itself (framing, Date, Host, Connection): not the caller's
+		kinds = [k for k, ok in (('req', is_req), ('resp', is_resp)) if ok] or ['req', 'resp']
+		spellings = _cases3(canonical)
+		for j, v in enumerate(spellings):
+			if full or j in (i % len(spellings), (i + 2) % len(spellings)):
+				out.append(_msg(kinds[(i + j) % len(kinds)], hdrs=[[v, value.encode().hex()]], chunked=bool((i + j) % 3 == 0)))
+	for name, implemented in reg['codings']:
+		if not implemented:
+			continue   # NotImplementedError in the table: the library says so itself
+		for j, v in enumerate(_cases3(name)):
+			for kind in ('req', 'resp'):
+				if full or j < 3:
+					out.append(_msg(kind, coding=v, chunked=True, body={'t': 'list', 'items': [b'abc'.hex(), b'def'.hex()], 'strs': [False, True]}))
+	for i, mt in enumerate(reg['mimetypes']):
+		for j, v in enumerate((mt, mt.upper())):
+			out.append(_msg('req' if (i + j) % 2 else 'resp', hdrs=[['Content-Type', (v.replace('*', 'x') + ('; boundary=b' if v.lower().startswith('multipart/') else '')).encode().hex()]],
+				body=_bytes(b'{"a": [1, 2]} <a>b</a> a=b&c=d --b--\r\n')))
+	for i, cs in enumerate(reg['charsets']):
+		if full or i % 6 == 0:
+			out.append(_msg('resp' if i % 4 else 'req', hdrs=[['Content-Type', ('text/plain; charset=%s' % (cs.upper() if i % 12 else cs)).encode().hex()]], body=_bytes(b'caf\xe9 \xe2\x82\xac \xff\xfe\x00a')))
+	for scheme in ('http', 'https', 'HTTP', 'Https'):
+		out.append(_req(scheme=scheme, host='Example.COM', port=8443))
+		out.append(_req(scheme=scheme))
+	return out
+
+
+def class_degenerate(rng, tier):
+	out = []
+	typed = ['ETag', 'Accept-Language', 'Cache-Control', 'Via', 'Warning', 'Referer', 'Location', 'Cookie', 'Authorization', 'If-Match', 'Content-Disposition', 'Vary', 'Pragma', 'Age', 'From', 'Forwarded']
+	for i, d in enumerate(DEG):
+		kind = 'req' if i % 2 else 'resp'
+		raw = d.encode('latin-1').hex()
+		out.append(_msg(kind, hdrs=[['X-Custom', raw], [typed[i % len(typed)], raw]]))
+		out.append(_msg('resp' if i % 2 else 'req', thdrs=[['X-Text', d], ['X-Text2', d + '€' + d]]))
+		out.append(_req(segs=['', d, 'z'] if i % 2 else ['', 'a', d], method='PUT'))
+		out.append(_req(segs=['', 'q'], query=[[d or 'e', d], [d or 'e', ''], ['a', 'x' + d], [d + 'x', 'b'], [d or 'e', d]], version=[1, i % 2]))
+		out.append(_resp(status=[200, 404, 299, 500][i % 4], reason='a' + d + 'b'))
+		out.append(_resp(status=[404, 299, 500, 200][i % 4], reason=[d, d + 'b', 'a' + d][i % 3], version=[1, i % 2]))
+	for m in ('$', '%', '&', "'", '*', '+', '-', '.', '^', '_', '0', '1-', '--', '..', 'A', 'z', '$-_.', 'a.b-c_d'):
+		out.append(_req(method=m, body=_bytes(b'x'), chunked=bool(len(out) % 2)))
+	for t, items, strs in (('list', [], []), ('list', [''], [False]), ('list', ['', ''], [True, False]), ('tuple', [], []), ('gen', [], []), ('gen', [''], [True]), ('text', [''], None),
+		('list', ['', '\xe4', ''], [False, True, True]), ('tuple', ['\xe4'], [True]), ('gen', ['', 'x'], [True, True]), ('list', ['0\r\n\r\n', '\r\n'], [True, False])):
+		for kind in ('req', 'resp'):
+			for ch in (False, True):
+				b = {'t': t, 'items': [x.encode('utf-8').hex() for x in items]}
+				if strs is not None:
+					b['strs'] = strs
+				out.append(_msg(kind, body=b, chunked=ch))
+	out.append(_req(segs=['', ''], method='PUT'))
+	out.append(_req(segs=['', 'a', ''], query=[], method='PUT'))
+	out.append(_req(segs=['*'], method='OPTIONS', body=_bytes(b'')))
+	return out
+
+
+def class_text_pieces(rng, tier):
+	"""iterables whose pieces are TEXT: counted in octets of the body charset, not in characters"""
+	out = []
+	for t in ('list', 'tuple', 'gen'):
+		for kind in ('req', 'resp'):
+			for ch, coding in ((False, None), (True, None), (True, 'gzip')):
+				for items, strs in (([b'ab', '\xe4\xf6'.encode('utf-8'), b'cd'], [True, True, True]), (['€'.encode('utf-8'), b'\xe2\x82\xac', b'!'], [True, False, False]),
+					(['Gr\xfc\xdfe, 世界! €'.encode('utf-8')], [True]), (['\U0001f600'.encode('utf-8'), b'', '\xe9'.encode('utf-8')], [True, True, True])):
+					out.append(_msg(kind, body={'t': t, 'items': [x.hex() for x in items], 'strs': strs}, chunked=ch, coding=coding))
+	return out
+
+
+BODY_CHARSETS = ['ISO8859-1', 'utf-16', 'UTF-16LE', 'utf-32', 'cp1252', 'iso8859-15', 'utf-7', 'ascii']
+
+
+def class_body_charset(rng, tier):
+	"""text content goes out in the charset of the body's media type (Body.encoding), and Content-Length counts ITS octets"""
+	out = []
+	for i, cs in enumerate(BODY_CHARSETS):
+		text = 'abc' if cs == 'ascii' else 'Gr\xfc\xdfe \xe9\xe0 x'
+		for j, t in enumerate(('text', 'list', 'tuple', 'gen')):
+			items = [text] if t == 'text' else ['<', text, '|', text[:4]]
+			b = {'t': t, 'items': [x.encode('utf-8').hex() for x in items], 'charset': cs}
+			if t != 'text':
+				b['strs'] = [False, True, False, True]
+			out.append(_msg('req' if (i + j) % 2 else 'resp', body=b, chunked=bool((i + j) % 3 == 0)))
+	return out
+
+
+def rmessage2(rng, tier):
+	"""random messages over the pools of the classes above"""
+	c = rmessage(rng, tier)
+	pool = UNI + DEG
+	if c['k'] == 'req':
+		if rng.random() < 0.6:
+			c['segs'] = [''] + [rng.choice(pool) or 'e' for _ in range(rng.randint(1, 3))]
+		if rng.random() < 0.5:
+			c['query'] = [[rng.choice(pool), rng.choice(pool)] for _ in range(rng.randint(1, 3))]
+	else:
+		if rng.random() < 0.5:
+			c['reason'] = rng.choice(['a', 'Not', 'x-1', '(a)']) + rng.choice(['  ', '\t', ' \t ', ' ', ', ', '"']) + rng.choice(['b', 'Found', '"q"', '\\'])
+	if rng.random() < 0.5:
+		c['thdrs'] = [['X-Text-%d' % j, rng.choice(pool) + rng.choice(['', ' ', 'x']) + rng.choice(pool)] for j in range(rng.randint(1, 2))]
+	b = c['body']
+	if b['t'] in ('list', 'tuple', 'gen') and rng.random() < 0.7:
+		items = [rng.choice(pool + ['abc', '\r\n', '0\r\n\r\n']) for _ in range(rng.randint(1, 4))]
+		b['items'] = [x.encode('utf-8').hex() for x in items]
+		b['strs'] = [rng.random() < 0.7 for _ in items]
+	if rng.random() < 0.35:
+		how, first = rng.choice(ROUTES)
+		if not (how in ('shared', 'sharedbody') and b['t'] == 'gen'):
+			c['route'] = {'how': how, 'first': dict(first), 'alt': rng.randrange(12)}
+	elif rng.random() < 0.2:
+		ch = bool(c.get('chunked'))
+		P = ['p', 1790000000]
+		c['ops'] = rng.choice([[['ch', ch], P, ['c'], P, ['c']], [['ch', ch], P, ['c'], ['c']], [['ch', not ch], P, ['ch', ch], P, ['c']], [['ch', not ch], P, ['c'], ['ch', ch], P, ['c']]])
+	return c
+
+
+def class_cases(rng, tier):
+	out = []
+	for f in (class_text_pieces, class_body_charset, class_stateful, class_unicode, class_lengths, class_registries, class_degenerate):
+		for c in f(rng, tier):
+			c['cls'] = f.__name__[6:]
+			out.append(c)
+	for _ in range(3000 if tier == 'thorough' else 100):
+		c = rmessage2(rng, tier)
+		c['cls'] = 'random'
+		out.append(c)
+	return out
+
+
+def excluded(c):
+	"""input classes kept out of the NEW generators (the clean tree does not deliver them; each is named in notes/reports/C04.md)"""
+	route = c.get('route') or {}
+	# NEW FINDING (clean tree): ComposedResponse.prepare puts the coding of a Content-Encoding field on the Body object (body.content_encoding = ...) and
+	# nothing ever takes it back: a Response object that was sent once with a Content-Encoding and is then given new headers (without the field) and a new
+	# body sends the new body CODED, without Content-Encoding field and with the Content-Length of the uncoded content.  Exactly this class is left out:
+	if c['k'] == 'resp' and route.get('how') == 'reuse' and (route.get('first') or {}).get('coding'):
+		return True
+	# NEW FINDING (clean tree): the names of the content codings are looked up as they are written: 'GZIP' / 'Gzip' / 'Deflate' (RFC 7231 3.1.2.1: case-insensitive)
+	# make ComposedResponse.prepare raise InvalidHeader (Unknown Content-Encoding) and the server machine answer 501 to the request
+	if c.get('coding') and c['coding'] != c['coding'].lower():
+		return True
+	# NEW FINDINGS (clean tree), degenerate values: (a) a reason phrase that begins or ends with SP / HTAB loses them (Response.parse strips the line, STATUS_RE
+	# swallows all white space after the code; a phrase of blanks only is refused like the empty one, D48); (b) a query pair with an EMPTY NAME does not come
+	# back: ('', 'v') is read as ('v', ''), ('', '') disappears
+	if c['k'] == 'resp' and c.get('reason') and c['reason'] != c['reason'].strip(' \t'):
+		return True
+	if c['k'] == 'req' and any(p[0] == '' for p in (c.get('query') or [])):
+		return True
+	# known findings of other properties (D1: an octet below 0x10 is percent-encoded with one digit; D21: C0 controls in a query): no control characters in the target
+	if c['k'] == 'req' and any(ord(ch) < 0x20 or ord(ch) == 0x7f for t in list(c['segs']) + [x for p in (c.get('query') or []) for x in p] for ch in t):
+		return True
+	# API preconditions rather than defects: a CONNECT request has an authority as its target, no path and query (ComposedRequest cannot send one: its
+	# relative_uri() takes the host away and Request.compose then refuses the target); URI.scheme selects the URI class by the lower-case name only
+	if c['k'] == 'req' and (c['method'] == 'CONNECT' or c.get('scheme', 'http') != c.get('scheme', 'http').lower()):
+		return True
+	return False
+
+
 def _ops(c):
+	if c.get('ops'):
+		return c['ops']   # statefulness cases: several prepares / composes / framing changes on one object; the LAST composition is what is parsed
 	return ([['ch', True]] if c.get('chunked') else []) + [['p', 1790000000], ['c']]
 
 
@@ -249,9 +659,17 @@ def delivery(run):
 	return {'msgs': msgs, 'err': err, 'started': fin['started'] if fin else None, 'left': fin['buf'] if fin and not fin['started'] else None}
 
 
+def unordered(d):
+	"""a delivery with the fields of every message in sorted order (the same message sent with its field lines in another order, or with the other framing)"""
+	d = dict(d)
+	d['msgs'] = [dict(m, hdrs=sorted(m['hdrs'])) for m in d['msgs']]
+	return d
+
+
 def _short(d):
 	return {'n_msgs': len(d['msgs']), 'err': d['err'], 'started': d['started'], 'left': d['left'] if d['left'] is None else len(d['left']) // 2,
-		'bodies': [len(m['body']) // 2 for m in d['msgs']], 'lines': [bytes.fromhex(m['line'] or '').decode('latin-1') for m in d['msgs']]}
+		'bodies': [len(m['body']) // 2 for m in d['msgs']], 'lines': [bytes.fromhex(m['line'] or '').decode('latin-1') for m in d['msgs']],
+		'fields': [hashlib.sha1(repr(sorted(map(tuple, m['hdrs']))).encode()).hexdigest()[:8] for m in d['msgs']]}
 
 
 _PRIMERS = {}
@@ -287,16 +705,18 @@ def _feeds(args):
 	kind, multi, two = args
 	dev, n = [], 0
 
-	def one(idx, label, data, cuts, exp):
+	def one(idx, label, data, cuts, exp, norm=False):
 		run = parser_rec.run(kind, _frags(data, cuts))
 		got = delivery(run)
+		if norm:
+			got = unordered(got)
 		if got != exp:
 			if len(dev) < 4:
 				dev.append({'how': label(), 'idx': idx, 'calls': len(run['calls']), 'want': _short(exp), 'got': _short(got)})
 			return 1
 		return 0
-	for idx, label, data, cuts, exp in multi:
-		n += one(idx, lambda: label, data, cuts, exp)
+	for idx, label, data, cuts, exp, *norm in multi:
+		n += one(idx, lambda: label, data, cuts, exp, bool(norm and norm[0]))
 	if two:
 		data, cuts, exp = two
 		for cut in cuts:
@@ -382,6 +802,69 @@ def framed(data):
 	return b'\r\ncontent-length:' in head or b'\r\ntransfer-encoding:' in head
 
 
+def _chunks(payload, sizes, style):
+	out, pos, k = [], 0, 0
+	while pos < len(payload):
+		n = max(1, sizes[k % len(sizes)])
+		piece = payload[pos:pos + n]
+		size = (b'%X' if style % 2 else b'%x') % len(piece)
+		if style % 3 == 1:
+			size = b'000' + size
+		ext = [b'', b';ext=1', b';q="a;b"', b';x'][(style + k) % 4] if style >= 2 else b''
+		out.append(size + ext + b'\r\n' + piece + b'\r\n')
+		pos += n
+		k += 1
+	return b''.join(out) + (b'0' if style % 2 else b'000') + b'\r\n'
+
+
+def reencodings(c, data):
+	"""(6) the same message as another RFC 7230 sender could have put it on the wire: (label, octets).  Read with the independent reader of
+	harness/composer_rec.py (not with the library); only messages whose framing that reader and the library's machine agree on are re-encoded
+	(the caller checks that the composed octets were delivered cleanly)"""
+	is_req = c['k'] == 'req'
+	try:
+		r = cr.read_http1(data, is_req, False)
+	except cr.Malformed:
+		return []
+	start, fields, payload = r['start'], r['fields'], r['payload']
+	if any(b'\r' in v or b'\n' in v for _, v in fields):
+		return []
+
+	def wire(fields, body, sep=b': ', tail=b''):
+		return start + b'\r\n' + b''.join(n + sep + v + tail + b'\r\n' for n, v in fields) + b'\r\n' + body
+	body = data[len(wire(fields, b'')):] if data.startswith(wire(fields, b'')) else None
+	if body is None:
+		return []   # the composer did not write 'Name: value' lines: nothing to compare with
+	out = []
+	framing = [(n, v) for n, v in fields if n.lower() in (b'content-length', b'transfer-encoding')]
+	others = [(n, v) for n, v in fields if n.lower() not in (b'content-length', b'transfer-encoding')]
+	# field names in other letter cases, field lines in another order (lines of the same name keep their order), optional white space
+	out.append(('field names in lower case', wire([(n.lower(), v) for n, v in fields], body)))
+	out.append(('field names in upper case', wire([(n.upper(), v) for n, v in fields], body)))
+	out.append(('field lines sorted backwards by name', wire(sorted(fields, key=lambda f: f[0].lower(), reverse=True), body)))
+	out.append(('framing fields first', wire(framing + others, body)))
+	out.append(('no white space after the colon', wire(fields, body, sep=b':')))
+	out.append(('tabs and blanks around the field values', wire(fields, body, sep=b': \t ', tail=b' \t')))
+	# a long value folded at one of its blanks (obs-fold; the continuation keeps a blank of its own, so that 'replace the fold by SP' and
+	# 'drop the first octet of the continuation line' - what Headers.parse does - agree)
+	folded = [(n, v.replace(b' ', b'\r\n  ', 1)) if (b' ' in v.strip(b' ') and n.lower() not in (b'content-length', b'transfer-encoding', b'host')) else (n, v) for n, v in fields]
+	if folded != fields:
+		out.append(('values folded at their first blank', wire(folded, body)))
+	version11 = start.endswith(b'HTTP/1.1') if is_req else start.startswith(b'HTTP/1.1')
+	coded = any(n.lower() == b'content-encoding' for n, _ in fields)   # the delivered Content-Length of a coded body depends on the framing: same framing only
+	if r['framing'] == 'chunked' and not r['trailer']:
+		for style, sizes in enumerate(([1], [2, 3, 5, 8, 13, 21, 34, 55, 89, 144, 233, 377, 610], [len(payload) or 1], [16, 15, 17, 255, 256, 4095, 4096])):
+			if (payload or style == 0) and not (style == 0 and len(payload) > 3000):
+				out.append(('chunked again in pieces of %s octets, chunk-size style %d' % (sizes[:4], style), wire(fields, _chunks(payload, sizes, style) + b'\r\n')))
+		if not coded:
+			out.append(('Content-Length instead of chunked', wire(others + [(b'Content-Length', b'%d' % len(payload))], payload)))
+	elif r['framing'] == 'length' and version11 and not coded:
+		out.append(('chunked instead of Content-Length', wire([(b'Transfer-Encoding', b'chunked')] + others, _chunks(payload, [7, 1, 4096], 0) + b'\r\n')))
+	return out
+
+
+COQ_WIRE_MAX = 20000   # longer wires: oracle only
+COQ_CLASS_MAX, COQ_CLASS_SHARE = 5000, 4   # cases of the input classes (key 'cls'): wires above this length go through Coq one in so many (cost of the literals)
 COQ_PER_OCTET_MAX, COQ_PER_OCTET_SHARE = 200, 4   # wires up to this length, one in so many: the octet-by-octet run is also replayed by the parser model inside Coq
 COQ_SEQ_MAX, COQ_SEQ_SHARE = 1200, 3             # ... and the run of three messages (chunked, the case's, Content-Length) on one machine
 
@@ -432,6 +915,15 @@ def observe_extra(c, kind, data, alone):
 			seq('twice in a row and then a Content-Length and a chunked message, three calls', [data, data, pcl + pch], [want, want, dcl, dch])
 		if len(data) * 2 + len(pch) + len(pcl) <= PER_OCTET_MAX:
 			seq('four messages on one machine, octet by octet', [pch, data, pcl, data], [dch, want, dcl, want], per_octet=True)
+		# (c) the same message as another sender could have written it (other chunk boundaries, chunk-size spellings and extensions, the
+		# other framing, field names in other letter cases, field lines in another order, optional white space, folded values)
+		uw = unordered(want)
+		variants = reencodings(c, data)
+		turn = int(hashlib.sha1(data).hexdigest()[:6], 16)
+		for vi, (label, octets) in enumerate(variants):
+			feeds.append(('re-encoded: ' + label, octets, [], uw, True))
+			if len(octets) <= 1000 and vi == turn % len(variants):   # one of them (another one for every wire) also octet by octet
+				feeds.append(('re-encoded: ' + label + ', octet by octet', octets, list(range(1, len(octets))), uw, True))
 	x['feeds'] = len(feeds) + len(tc)
 	x['deviations'] = Pending(kind, feeds, data, tc, want)
 	# the runs that also go through the parser model inside Coq, with the callee tables of that very run; a fixed share of the wires (the
@@ -467,6 +959,11 @@ def coq_case(c, o):
 	extra(o)
 	if 'harness_exception' in o or 'parse' not in o:
 		return None
+	n = len(o['ops'][-1]['out']) // 2
+	if n > COQ_WIRE_MAX:
+		return None   # oracle only: a literal of this size overflows the stack of vm_compute (the 64 kB cases of the length class)
+	if c.get('cls') and n > COQ_CLASS_MAX and int(hashlib.sha1(o['ops'][-1]['out'].encode()).hexdigest()[:6], 16) % COQ_CLASS_SHARE:
+		return None
 	case = dict(c)
 	case['ops'] = _ops(c)
 	case.setdefault('trailer', [])
@@ -494,6 +991,8 @@ def coq_case(c, o):
 
 # ---------------------------------------------------------------- the property, stated on the implementation
 MANAGED = {'content-length', 'transfer-encoding', 'connection', 'date', 'host', 'user-agent', 'accept', 'content-type', 'accept-ranges', 'allow', 'content-range'}
+# ... of which the composer only fills in a default when the caller set nothing (setdefault / 'not in'): a caller-set value is the caller's
+DEFAULTED = {'user-agent', 'accept', 'content-type', 'accept-ranges', 'allow'}
 REMOVED_304 = {'allow', 'content-encoding', 'content-language', 'content-length', 'content-md5', 'content-range', 'content-type', 'expires', 'location'}
 
 
@@ -543,18 +1042,26 @@ def oracle(c, o):
 			return 'status %r became %r' % (c['status'], m['status'])
 		if m['reason'] != bytes.fromhex(o['init']['reason']).decode('ascii'):
 			return 'reason %r became %r' % (bytes.fromhex(o['init']['reason']), m['reason'])
+		if c.get('reason') is not None and m['reason'] != c['reason']:
+			return 'reason %r became %r' % (c['reason'], m['reason'])
 	got = dict((bytes.fromhex(k).lower(), bytes.fromhex(v)) for k, v in m['hdrs'])
+	if c['k'] == 'req' and c.get('host') and 'host' not in [n.lower() for n, _ in c.get('hdrs', [])]:
+		# the host of the URI the caller set is what the composer announces (and nothing an earlier use of the object left behind)
+		if (got.get(b'host') or b'').lower() != c['host'].lower().encode('ascii'):
+			return 'host %r became %r' % (c['host'], got.get(b'host'))
+	# fields the library removes by design: the table of the status classes, read from the tree (304), and the constant of the first version of this check
+	removed = set(registries()['removed'].get(c.get('status'), ())) | (REMOVED_304 if c.get('status') == 304 else set())
 	for name, value in c.get('hdrs', []):
 		ln = name.lower()
-		if ln in MANAGED:
+		if ln in MANAGED and ln not in DEFAULTED:
 			continue
-		if c['k'] == 'resp' and c['status'] == 304 and ln in REMOVED_304:
+		if c['k'] == 'resp' and ln in removed:
 			continue
 		if c['k'] == 'req' and c['method'] == 'TRACE' and ln in ('cookie', 'www-authenticate'):
 			continue
 		if c['k'] == 'resp' and c.get('rmethod') == 'TRACE' and ln == 'set-cookie':
 			continue
-		if got.get(ln.encode('ascii')) != bytes.fromhex(value):
+		if got.get(ln.encode('ascii')) != bytes.fromhex(value).strip(b' \t'):   # white space around a field value is not part of it (RFC 7230 3.2.4)
 			return 'header field %s: %r became %r' % (name, bytes.fromhex(value), got.get(ln.encode('ascii')))
 		# ... and the same value as text: what the application reads with headers[name] (Latin-1 text in, Latin-1 text out;
 		# values that look like RFC 2047 encoded words are known finding D16 of C08 and skipped)
@@ -569,6 +1076,35 @@ def oracle(c, o):
 				return 'header field %s: value %r cannot be read as text: %s' % (name, raw, type(exc).__name__)
 			if text != raw.decode('ISO8859-1'):
 				return 'header field %s: the text %r set by the caller is read back as %r' % (name, raw.decode('ISO8859-1'), text)
+	# fields the caller set as TEXT (Latin-1 goes out as it is, anything else as an RFC 2047 encoded word): what the application reads from the
+	# delivered message with headers[name] is the caller's text, code point for code point
+	for name, text in c.get('thdrs', []):
+		ln = name.lower()
+		if (ln in MANAGED and ln not in DEFAULTED) or (c['k'] == 'resp' and ln in removed):
+			continue
+		if '=?' in text and not text.strip(' \t').startswith('=?'):
+			try:
+				text.encode('latin-1')
+				continue   # Latin-1 text that contains what looks like an encoded word is sent raw: known finding D16 of C08
+			except UnicodeEncodeError:
+				pass
+		raw = got.get(ln.encode('ascii'))
+		if raw is None:
+			return 'header field %s: the text %r set by the caller is not delivered' % (name, text)
+		from httoop import Headers
+		h = Headers()
+		h[name] = raw
+		try:
+			back = h[name]
+		except Exception as exc:
+			return 'header field %s: delivered value %r of the text %r cannot be read: %s' % (name, raw, text, type(exc).__name__)
+		try:
+			text.encode('latin-1')
+			expect = text.strip(' \t')   # sent as it is: white space around a field value is not part of it
+		except UnicodeEncodeError:
+			expect = text   # sent as one encoded word: all of it
+		if back != expect:
+			return 'header field %s: the text %r set by the caller is read back as %r' % (name, text, back)
 	# the same single delivery however the octets are cut into calls, and whatever the machine has parsed before
 	x = extra(o)
 	if x is None or x['deviations'] is None:
@@ -589,7 +1125,7 @@ def classify(c, o, fail):
 		return 'D51-trace-request-body'
 	if c['k'] == 'req' and any(':' in s for s in c['segs']) and 'refuses' in fail:
 		return 'D49-colon-in-request-path'
-	if c['k'] == 'resp' and c.get('reason') is None and o.get('init', {}).get('reason') == '' and 'refuses' in fail:
+	if c['k'] == 'resp' and not c.get('reason') and o.get('init', {}).get('reason') == '' and 'refuses' in fail:   # no reason phrase, or the empty one set explicitly
 		return 'D48-empty-reason-phrase'
 	if c['version'] == [1, 0] and chunked:
 		return 'D47-chunked-on-http10'
@@ -607,7 +1143,7 @@ def nontrivial(c, o):
 	calls = o['parse']['calls']
 	outcome = calls[0].get('err', len(calls[0].get('msgs', [])))
 	return (c['k'], outcome, c['body']['t'], bool(c.get('chunked')), c.get('coding'), min(len(cr.body_content(c['body'])) // 4096, 3), tuple(c['version']),
-		c.get('status'), c.get('method'), len(c.get('hdrs', [])))
+		c.get('status'), c.get('method'), len(c.get('hdrs', [])), c.get('cls'), (c.get('route') or {}).get('how'), c.get('how'))
 
 
 LEVEL_TEXT = ('Machine-checked Coq theorems on the composition of two executable Gallina models (composer, parser state machine): for every message of the composer model with '
